@@ -78,8 +78,8 @@ def find_cmd_strings(data: bytes) -> list[Node]:
             not split[0].startswith(b"'") and split[0].endswith(b"'")
         ):
             # Remove the trailing quotation
-            split[0] = split[0][:-1]
-            deobfuscated = b" ".join(split)
+            quote_index = deobfuscated.index(split[0]) + len(split[0]) - 1
+            deobfuscated = deobfuscated[:quote_index] + deobfuscated[quote_index + 1 :]
 
         cmd_string = Node("shell.cmd", deobfuscated, obfuscation, start, end)
         cmd_strings.append(cmd_string)
